@@ -272,6 +272,14 @@ def membership_checks(obs, pix, sky, w, case):
         i = int(np.flatnonzero(bad2)[0])
         obs.violation('sky-membership-differs-from-geometric-model', f'{type(sky).__name__}.contains gave {bool(got_b[i])} but the geometric model of its '
                       f'pixel image says {bool(np.asarray(ins)[i])} at pixel ({conv.x[i]!r}, {conv.y[i]!r})')
+    # (1b) one position at a time (a scalar SkyCoord / PixCoord): the same answers as within the array
+    for i in [int(v) for v in np.flatnonzero(dec)[:3]] + [int(v) for v in np.flatnonzero(dec & exp_b)[:1]]:
+        s_i = sky.contains(sc[i], w)
+        p_i = pimg.contains(PixCoord(float(conv.x[i]), float(conv.y[i])))
+        obs.count('scalar-sky-queries')
+        obs.check(bool(s_i) == bool(exp_b[i]) and bool(p_i) == bool(exp_b[i]) and np.ndim(s_i) == 0, 'scalar-membership-differs-from-array-membership',
+                  f'{type(sky).__name__}.contains(scalar position) gave {s_i!r}, its pixel image {p_i!r}, the array query {bool(exp_b[i])} '
+                  f'(include={dict.get(sky.meta, "include", "absent")!r})', 'membership-sky-vs-pixel')
     # (2) pixel region asked about p == its sky conversion asked about the sky image of p
     gp = np.broadcast_to(np.asarray(pix.contains(pc)), px.shape)
     gs = np.broadcast_to(np.asarray(pix.to_sky(w).contains(sc, w)), px.shape)
